@@ -18,6 +18,7 @@ mod fam_partial;
 mod fam_pset;
 mod fam_robust;
 mod fam_schemasyn;
+mod fam_entityjson;
 mod schema_syntax;
 mod fam_slice;
 mod fam_store;
@@ -83,6 +84,7 @@ fn family(name: &str) -> Option<(Runner, Driver)> {
         "symcc" => (fam_symcc::run, fam_symcc::drive),
         "robust" => (fam_robust::run, fam_robust::drive),
         "schemasyn" => (fam_schemasyn::run, fam_schemasyn::drive),
+        "entityjson" => (fam_entityjson::run, fam_entityjson::drive),
         _ => return None,
     })
 }
